@@ -32,6 +32,7 @@ type Engine struct {
 	chaGraph  *callgraph.Graph
 	Excluded  []string
 	canonMemo map[ssa.Value]string
+	fnInfos   map[*ssa.Function]*fnInfo
 }
 
 // Load type-checks every package of the module in repoDir and builds SSA.
@@ -57,6 +58,7 @@ func Load(repoDir string, overlay map[string][]byte) (*Engine, error) {
 		byName:    map[string]*ssa.Function{},
 		parents:   map[*ssa.Function]*ssa.MakeClosure{},
 		canonMemo: map[ssa.Value]string{},
+		fnInfos:   map[*ssa.Function]*fnInfo{},
 	}
 	var errs []string
 	packages.Visit(pkgs, nil, func(p *packages.Package) {
